@@ -188,6 +188,15 @@ def checkoutNewBranch (g : G) (b : String) : Res G :=
     | some c => .ok { g with refs := (b, c) :: g.refs, head := .branch b }
     | none => .ok { g with head := .branch b }          -- unborn branch renamed
 
+/-- `git checkout -B <b>`: creates the branch, or RESETS an already existing branch of that name to
+    the current HEAD commit; never refuses.  NOT what `git_commit_xvc_files` runs (it runs
+    `checkout -b`, `checkoutNewBranch`); kept with `gitAutoCommitForceBranch` for the counterexample
+    `C15_to_branch_force_counterexample`. -/
+def checkoutForceBranch (g : G) (b : String) : Res G :=
+  match g.headCommit with
+  | some c => .ok { g with refs := (b, c) :: g.refs.filter (fun r => r.1 != b), head := .branch b }
+  | none => .ok { g with head := .branch b }
+
 /-- `git add --verbose <pathspec>`: index entries of matching paths become what the work tree has
     (removals included); the output lists the paths that changed. -/
 def gitAdd (spec : Path → Bool) (g : G) : G × List Path :=
@@ -294,6 +303,26 @@ def gitAutoCommitRelative (root : Path) (spec : Path → Bool) (g : G) (msg : St
   | .outside => ⟨g, .outside⟩
   | .ok g1 =>
     let (g2, ok) := gitCommitXvcFiles spec g1 msg toBranch hookOk
+    if staged ≠ [] then
+      match stashPopIndex g2 with
+      | .ok g3 => ⟨g3, if ok then .ok else .gitError⟩
+      | .fail => ⟨g2, .gitError⟩
+      | .outside => ⟨g2, .outside⟩
+    else ⟨g2, if ok then .ok else .gitError⟩
+
+/-- A variant of `git_auto_commit` that is NOT in the code: the `--to-branch` switch is done with
+    `git checkout -B` (`checkoutForceBranch`).  A branch that already exists is moved to the current
+    HEAD and xvc's commit is put on top: the commits the branch had are lost
+    (`C15_to_branch_force_counterexample`). -/
+def gitAutoCommitForceBranch (spec : Path → Bool) (g : G) (msg : String) (b : String)
+    (hookOk : Bool) : Out :=
+  match stashUserStagedFiles g with
+  | .fail => ⟨g, .gitError⟩
+  | .outside => ⟨g, .outside⟩
+  | .ok (g1, staged) =>
+    let (g2, ok) := match checkoutForceBranch g1 b with
+      | .ok gb => gitCommitXvcFiles spec gb msg none hookOk
+      | _ => (g1, false)
     if staged ≠ [] then
       match stashPopIndex g2 with
       | .ok g3 => ⟨g3, if ok then .ok else .gitError⟩
